@@ -107,7 +107,7 @@ def email_doc(rng):
 def raw_metadata(rng):
     vals = {
         "metadata_version": ["2.1", "2.3", "2.4", "1.0", "9.9", "x"], "name": ["foo", "Foo_Bar", "-bad", "", "{x}", "a{0}"], "version": ["1.0", "1!2a1", "bad", "{0}", "1.{}"],
-        "summary": ["ok", "two\nlines", "{}\nx"], "description": ["text"], "description_content_type": ["text/markdown", "text/plain; charset=UTF-8", "text/x", "text/plain\nfoo", "text/plain; charset=latin-1"],
+        "summary": ["ok", "two\nlines", "{}\nx"], "description": ["text"], "description_content_type": ["text/markdown", "text/plain; charset=UTF-8", "text/x", "text/plain\nfoo", "text/plain; charset=latin-1", "text/plain; a*", "text/plain; a*0*=\"x'", "text/markdown; charset*"],
         "keywords": [["a", "b"], []], "requires_python": [">=3.8", "??", "", "{x}"], "requires_dist": [["a>=1"], ["a ; os_name == '\\x'"], ["bad req!"], []],
         "provides_extra": [["a", "B_c"], ["-x"]], "dynamic": [["classifier"], ["name"], ["nope"]], "license_expression": ["MIT", "mit or apache-2.0", "LicenseRef-foo+", "MIT AND ()"],
         "license_files": [["LICENSE"], ["../x"], ["/abs"], ["a\\b"], ["*.txt"]], "project_urls": [{"A": "u"}], "classifiers": [["x"]],
